@@ -182,3 +182,123 @@ def node_as_wire_is_output_zero():
     sym.check("wire_is_out0", sym.and_(isinstance(p, OutPort), p.offset == 0, p.node.idx == i))
     q = OutPort(n, sym.int("o", 0, None))
     sym.check("port_as_wire_is_itself", q.out_port() is q)
+
+
+# ---------------------------------------------------------------------------
+# L2: handles returned by the graph / the builders carry the right output count
+# ---------------------------------------------------------------------------
+def _outs(handle):
+    return [p.offset for p in handle]
+
+
+@lemma("C16", bounds="explicit counts 0..3; slot fresh or reused after deleting a node that had a different count; count given or not",
+       outside="larger counts (the count is stored, not computed)")
+def add_node_handle_count():
+    from hugr import ops, tys
+    from hugr.hugr import Hugr
+    h = Hugr()
+    op = ops.Custom("x", tys.FunctionType.empty(), extension="e")
+    if sym.concretize(sym.bool("reuse_slot")):
+        old = h.add_node(op, num_outs=sym.concretize(sym.int("old_count", 0, 3)))
+        h.delete_node(old)
+    if sym.concretize(sym.bool("count_given")):
+        k = sym.concretize(sym.int("count", 0, 3))
+        n = h.add_node(op, num_outs=k)
+        sym.check("explicit_count_enumerated", _outs(n) == list(range(k)) and _outs(n.outputs()) == list(range(k)))
+        sym.check("children_handle_has_count", _outs(h.children()[-1]) == list(range(k)))
+    else:
+        n = h.add_node(op)
+        try:
+            list(n)
+            sym.check("no_count_iteration_raises_ValueError", False)
+        except ValueError:
+            sym.check("no_count_iteration_raises_ValueError", True)
+        sym.check("no_count_nonneg_index_ok", n[5].offset == 5)
+
+
+@lemma("C16", bounds="builder entry points add_op/add/extend/call/load/load via const node/add_nested/add_cfg/add_conditional/add_if/add_tail_loop and the "
+                     "four insert_*; operation / container output counts 0..2 (incl. zero outputs)",
+       outside="wider operations", opts={"max_paths": 100000, "timeout_s": 1500})
+def builder_handles_know_their_outputs():
+    from hugr import ops, tys, val
+    from hugr.build.cfg import Cfg
+    from hugr.build.cond_loop import Conditional, TailLoop
+    from hugr.build.dfg import Dfg
+    from hugr.build.function import Module
+    Bo = tys.Bool
+    k = sym.concretize(sym.int("n_out", 0, 2))
+    how = sym.concretize(sym.int("entry_point", 0, 13))
+    d = Dfg(Bo, Bo)
+    a, b = d.inputs()
+    cu = ops.Custom("op", tys.FunctionType([Bo], [Bo] * k), extension="e")
+    if how == 0:
+        n = d.add_op(cu, a)
+    elif how == 1:
+        n = d.add(cu(a))
+    elif how == 2:
+        n = d.extend(cu(a), cu(b))[1]
+    elif how == 3:
+        m = Module()
+        decl = m.declare_function("f", tys.PolyFuncType([], tys.FunctionType([Bo], [Bo] * k)))
+        f = m.define_function("main", [Bo])
+        n = f.call(decl, *f.inputs())
+    elif how == 4:
+        n = d.load(val.TRUE)
+        k = 1
+    elif how == 5:
+        n = d.load(d.add_const(val.Tuple(val.TRUE)))
+        k = 1
+    elif how == 6:
+        with d.add_nested(a, b) as nested:
+            nested.set_outputs(*nested.inputs()[:k])
+        n = nested.parent_node
+        sym.check("container_to_node_same_handle", _outs(nested) == list(range(k)))
+    elif how == 7:
+        with d.add_cfg(a, b) as cfg:
+            with cfg.add_entry() as e:
+                e.set_single_succ_outputs(*e.inputs()[:k])
+            cfg.branch_exit(e[0])
+        n = cfg.parent_node
+        sym.check("container_to_node_same_handle", _outs(cfg) == list(range(k)))
+    elif how == 8:
+        with d.add_conditional(a, b, b) as cond:
+            for j in range(2):
+                with cond.add_case(j) as cs:
+                    cs.set_outputs(*cs.inputs()[:k])
+        n = cond.parent_node
+        sym.check("container_to_node_same_handle", _outs(cond) == list(range(k)))
+    elif how == 9:
+        if_ = d.add_if(a, b, b)
+        if_.set_outputs(*if_.inputs()[:k])
+        else_ = if_.add_else()
+        else_.set_outputs(*else_.inputs()[:k])
+        n = else_.conditional_node
+    elif how == 10:
+        with d.add_tail_loop([a], [b, b][:k]) as tl:
+            brk = tl.add_op(ops.Tag(1, tys.Sum([[Bo], []])))
+            tl.set_loop_outputs(brk, *tl.inputs()[1:])
+        n = tl.parent_node
+        sym.check("container_to_node_same_handle", _outs(tl) == list(range(k)))
+    elif how == 11:
+        inner = Dfg(Bo, Bo)
+        inner.set_outputs(*inner.inputs()[:k])
+        n = d.insert_nested(inner, a, b)
+    elif how == 12:
+        inner = Cfg(Bo, Bo)
+        with inner.add_entry() as e:
+            e.set_single_succ_outputs(*e.inputs()[:k])
+        inner.branch_exit(e[0])
+        n = d.insert_cfg(inner, a, b)
+    else:
+        inner = Conditional(tys.Bool, [Bo, Bo])
+        for j in range(2):
+            with inner.add_case(j) as cs:
+                cs.set_outputs(*cs.inputs()[:k])
+        n = d.insert_conditional(inner, a, b, b)
+    sym.check("handle_enumerates_value_outputs", _outs(n) == list(range(k)))
+    sym.check("unpacking_works", len(list(n[:])) == k)
+    try:
+        n[k]
+        sym.check("index_past_last_output_raises", False)
+    except IndexError:
+        sym.check("index_past_last_output_raises", True)
